@@ -26,7 +26,7 @@ VARIABLES l, bad, phase, srcs, bases, rules, pending, prof, opts
 vars == <<l, bad, phase, srcs, bases, rules, pending, prof, opts>>
 
 ToSetOf(seq) == {seq[i] : i \in DOMAIN seq}
-Init == l = 1 /\ bad = {} /\ phase = "none" /\ srcs = <<>> /\ bases = <<>> /\ rules = [drop |-> {}, keep |-> {}] /\ pending = {} /\ prof = <<>> /\ opts = NoOpts
+Init == l = 1 /\ bad = {} /\ phase = "none" /\ srcs = <<>> /\ bases = <<>> /\ rules = [drop |-> {}, keep |-> {}] /\ pending = {} /\ prof = NoProf /\ opts = NoOpts
 
 AnyOk == (\E i \in DOMAIN srcs : srcs[i].ok) /\ (bases = <<>> \/ \E i \in DOMAIN bases : bases[i].ok)   \* a run with -base needs one of them as well
 \* arguments of a report command override the stored focus / ignore for that command only
@@ -68,10 +68,10 @@ Step ==
        /\ CASE e.ev = "config" -> /\ phase' = "fetch" /\ srcs' = e.srcs /\ bases' = e.bases
                                   /\ rules' = [drop |-> ToSetOf(e.drop), keep |-> ToSetOf(e.keep)]
                                   /\ pending' = {e.srcs[i].name : i \in DOMAIN e.srcs} \cup {e.bases[i].name : i \in DOMAIN e.bases}
-                                  /\ prof' = <<>> /\ opts' = NoOpts
+                                  /\ prof' = NoProf /\ opts' = NoOpts
             [] e.ev = "fetch"  -> pending' = pending \ {e.src} /\ UNCHANGED <<phase, srcs, bases, rules, prof, opts>>
             \* symbolize, then (silently) the profile's own frame-dropping rules: the session works on the pruned profile
-            [] e.ev = "sym"    -> /\ phase' = "session" /\ prof' = PrunedBag(CombinedOf(srcs, bases), rules.drop, rules.keep) /\ pending' = {}
+            [] e.ev = "sym"    -> /\ phase' = "session" /\ prof' = Prof(CombinedOf(srcs, bases), rules.drop, rules.keep) /\ pending' = {}
                                   /\ UNCHANGED <<srcs, bases, rules, opts>>
             [] e.ev = "assign" -> opts' = ApplyAssign(opts, e) /\ UNCHANGED <<phase, srcs, bases, rules, pending, prof>>
             [] e.ev \in {"report", "noop"} -> UNCHANGED <<phase, srcs, bases, rules, pending, prof, opts>>   \* a report, a rejected or an ignored line change nothing
